@@ -180,7 +180,24 @@ class AmpExecutor(readfile.ReadFileExecutor):
                             fr.env[name] = VInt(z3.Int(fresh_name(f"int_from_input[{'+'.join(sorted(srcs))}]" if srcs else "int_of_unknown")))
         return base
 
+    def get_attr(self, st, base, attr, node):
+        # the value get_extractor returns is modelled as (module, function name): `extractor.__name__` is the function's name
+        if attr in ("__name__", "__qualname__") and isinstance(base, VTuple) and len(base.items) == 2 and all(isinstance(x, VStr) for x in base.items):
+            return [(st, base.items[1])]
+        if attr == "__module__" and isinstance(base, VTuple) and len(base.items) == 2 and all(isinstance(x, VStr) for x in base.items):
+            return [(st, base.items[0])]
+        return super().get_attr(st, base, attr, node)
+
+    def havoc_everything(self, st):
+        if not st.ghost.get("opened"):
+            st.ghost["c12_path_escaped"] = "abstracted expression"
+        return super().havoc_everything(st)
+
     def havoc_call(self, st, what, args, node):
+        # an unmodelled call that receives the path (or a string) may take the size of the file in a way the model does not see
+        # (only before the file is opened: what happens to the content afterwards is not a size check)
+        if not st.ghost.get("opened") and (what.startswith("Path.") or any(isinstance(a, VExt) and a.sort == "Path" or isinstance(a, VStr) and a.const() is None for a in args)):
+            st.ghost["c12_path_escaped"] = what
         r = super().havoc_call(st, what, args, node)
         # `X.get(<constant attribute name>[, default])` on an unknown element: the value is that attribute of the input
         if isinstance(node, ast.Call) and isinstance(node.func, ast.Attribute) and node.func.attr == "get" and args and isinstance(args[0], VStr):
@@ -405,6 +422,15 @@ def contracts(reg):
     reg.ext_models["os.stat"] = x_os_stat
     reg.ext_models["os.lstat"] = x_os_lstat
 
+    def new_path2(ex, st, args, kwargs, node):
+        r = readfile.new_path(ex, st, args, kwargs, node)
+        for (s_, v) in r:
+            if isinstance(v, VExt) and v.sort == "Path":
+                s_.ghost["c12_path_objs"] = s_.ghost.get("c12_path_objs", ()) + (v.t,)
+        return r
+    reg.ext_models[("new", "pathlib.Path")] = new_path2
+    reg.ext_models[("new", "Path")] = new_path2
+
     # ---- read_file: refuses exactly files larger than max_file_size (0 or negative disables), before opening
     def the_path(c):
         ids = c.st.ghost.get("paths_from_param", frozenset())
@@ -417,10 +443,21 @@ def contracts(reg):
     # known to the model (the size may be taken in a way the model does not follow) -> never a definite counterexample
     size_unrecognised = z3.Function("c12!size-source-not-recognised", z3.IntSort(), z3.BoolSort())(z3.IntVal(0))
 
+    def unseen_path(c):
+        """No size source was consulted on this path of the function AND nothing the model does not follow received the path: then
+        the size of the file (of the Path built from the parameter) was definitely not looked at."""
+        objs = c.st.ghost.get("c12_path_objs", ())
+        if the_path(c) is None and objs and not c.st.ghost.get("c12_path_escaped"):
+            return objs[-1]
+        return None
+
     def too_large(c):
         p = the_path(c)
         m = c.args["max_file_size"].t
         if p is None:
+            p0 = unseen_path(c)
+            if p0 is not None:
+                return z3.And(m > 0, readfile.FSIZE(p0) > m)       # definite: the file may have any size
             return z3.And(m > 0, size_unrecognised)
         return z3.And(m > 0, readfile.FSIZE(p) > m)
 
@@ -448,7 +485,8 @@ def contracts(reg):
         generator=True,
         ensures=[("accepted-only-within-limit", lambda c: z3.Not(too_large(c))),
                  ("size-taken-from-stat-of-the-given-path-when-limit-enabled",
-                  lambda c: z3.BoolVal(True) if the_path(c) is not None else z3.Or(c.args["max_file_size"].t <= 0, NOTDEF))],
+                  lambda c: z3.BoolVal(True) if the_path(c) is not None else
+                  (c.args["max_file_size"].t <= 0 if unseen_path(c) is not None else z3.Or(c.args["max_file_size"].t <= 0, NOTDEF)))],
         raises=[Raises(TOOLARGE, when=rf_toolarge, label="too large: before the file is opened"),
                 Raises("Exception", sub=True, when=rf_other, label="anything else only if the size check passed")],
         note="size > max_file_size > 0  <=>  ExtractionFileTooLargeError before open(); max_file_size <= 0 disables the check",
@@ -706,7 +744,7 @@ def _native_scope(which):
 
 def _extra():
     from contracts import c12_cost
-    return [_native_scope("explicit-limits"), _native_scope("repeat-attribute-classes"), policy, _cost("self_suffix_obligations"), _cost("xml_policy"), _cost("nested_scan_obligations")] + [_carve_task(k) for k in c12_cost.carve_tasks()]
+    return [_native_scope("explicit-limits"), _native_scope("repeat-attribute-classes"), _native_scope("zip-bomb-classes"), _cost("guard_exemptions"), policy, _cost("self_suffix_obligations"), _cost("xml_policy"), _cost("nested_scan_obligations")] + [_carve_task(k) for k in c12_cost.carve_tasks()]
 
 
 EXTRA = _extra()
@@ -738,7 +776,7 @@ def known_findings(kf, violations, repo, tier):
 
 TRUSTED = ["defusedxml forbids entity expansion", "stat().st_size is the size read_file would read"]
 ASSUMED_MODELS = ["pathlib.Path.stat/st_size", "open()", "io.BytesIO.seek/tell (position, SEEK_END = size)", "router contracts (C07)"]
-BOUNDED = ["native-scope#explicit-limits and native-scope#repeat-attribute-classes: directed native runs of the replayer on every check (never counted as proved)"]
+BOUNDED = ["native-scope#explicit-limits, native-scope#zip-bomb-classes and native-scope#repeat-attribute-classes: directed native runs of the replayer on every check (never counted as proved)"]
 ASSUMPTIONS = ["peak memory and run time as quantities are not decided (not expressible as contracts); what is decided are the structural causes of super-linear cost: "
                "unbounded repeat expansion (amp-bounded#repeat-site), overlapping carving of a scanned buffer (amp-bounded#carve-while-k: copies of different iterations "
                "are disjoint, so total copy size <= len(buffer)), per-iteration re-slicing (no-self-suffix-rebinding), nested re-scans (nested-scans-skip-the-part-handed-out); "
